@@ -4,15 +4,19 @@
        the condition is tried once; if it has a result, [yes] continues from its FIRST result and
        [no] is never tried; otherwise [no] runs from the original state; (?(N)) succeeds iff group
        N is set.
-   (2) (?(N)) alone — BackrefExistsCondition — is inside the scope of the end-to-end theorem
-       (Properties/C01.v): wherever it appears (loops, atomic groups, look-arounds) the VM does
-       what the reference does (C15_exists_condition).
-   (3) for (?(cond)yes|no) the statement "the VM equals the reference wherever the conditional
-       appears" is REFUTED on the faithful model: the lowering BeginAtomic; Split; cond;
-       EndAtomic; yes; Jmp; no leaves the count pushed by BeginAtomic on the auxiliary stack on
-       the false path, so an enclosing EndAtomic cuts to the wrong depth
-       (C15_nested_conditional_refuted: the witness of known finding F-condleak, replayed on
-       the real crate by the check). *)
+   (2) both forms are inside the scope of the end-to-end theorem (Properties/C01.v) WHEREVER THE
+       CONDITIONAL IS NOT INSIDE AN ATOMIC CUT — i.e. not inside the body of an atomic group, of a
+       look-around, or in the condition position of another conditional (predicate [rok true]);
+       inside loops, groups, alternations, concatenations and the branches of other conditionals
+       the VM does what the reference does, and (?(N)) alone is covered everywhere
+       (C15_conditional_follows_reference).  The compiler-correctness induction carries, for
+       this, an auxiliary-stack relation that tolerates the entry the lowering leaks on the
+       false path, and demands the exact relation for everything under a cut.
+   (3) under a cut the statement "the VM equals the reference wherever the conditional appears"
+       is REFUTED on the faithful model: the lowering BeginAtomic; Split; cond; EndAtomic; yes;
+       Jmp; no leaves the count pushed by BeginAtomic on the auxiliary stack on the false path,
+       so an enclosing EndAtomic cuts to the wrong depth (C15_nested_conditional_refuted: the
+       witness of known finding F-condleak, replayed on the real crate by the check). *)
 From FR Require Import Base State Utf8 Utf8Facts Chars Ast Analyze Sem SemSound Vm Compile
                        Machine CompileCorrect RunCorrect EndToEnd.
 From Coq Require Import NArith Lia.
@@ -30,13 +34,13 @@ Theorem C15_reference_group_exists : forall cx grp fuel g ix caps,
   match getcap caps (2 * N.to_nat grp) with V _ => [(ix, caps)] | MAXV => [] end.
 Proof. reflexivity. Qed.
 
-(* (?(N)) anywhere in a pattern of the C01 scope: [oke] admits BackrefExistsCondition *)
-Theorem C15_exists_condition :
+(* conditionals outside atomic cuts, (?(N)) anywhere: [oke true] admits them *)
+Theorem C15_conditional_follows_reference :
   forall cs : list (list nat), valid_chars cs ->
   forall cx : ctx, c_text cx = concat cs -> (N.of_nat (length (concat cs)) < usize_max)%N ->
   bnd cs (c_pos cx) ->
   forall (bs : N -> bool) (e : expr) (p : prog),
-  compile bs (wrap e) = inr p -> nodeleg (p_body p) -> oke 0 (wrap e) ->
+  compile bs (wrap e) = inr p -> nodeleg (p_body p) -> oke true 0 (wrap e) ->
   forall fuel : nat, length (concat cs) < fuel ->
   forall (max_st : nat) (lim : option N) (fuelv : nat),
   match fst (vm_run cx p max_st lim fuelv) with
@@ -47,14 +51,34 @@ Theorem C15_exists_condition :
   end.
 Proof. exact vm_agrees_with_reference. Qed.
 
-(* non-vacuity: (?>(a)?(?(1))b) — a condition on a group inside an atomic group, compiled to VM
+(* what [oke true] says about conditionals *)
+Example rok_allows : rok true (Repeat (Conditional (BackrefExistsCondition 1) Empty Empty) 0 usize_max true) /\
+                     ~ rok true (AtomicGroup (Conditional Empty Empty Empty)) /\
+                     ~ rok true (Conditional (Conditional Empty Empty Empty) Empty Empty).
+Proof. cbn. repeat split; try lia; intros H; tauto. Qed.
+
+(* non-vacuity 1: (?:(a)?(?(1)b|c))+ — a conditional with both branches inside a loop, compiled to
+   VM instructions only; "cab" matches entirely (first iteration takes no, second takes yes) *)
+Definition ex2_e : expr :=
+  Repeat (Concat [Repeat (Group (Literal [97] false)) 0 1 true;
+                  Conditional (BackrefExistsCondition 1) (Literal [98] false) (Literal [99] false)]) 1 usize_max true.
+Definition ex2_p : prog :=
+  match compile (fun n => N.eqb n 1) (wrap ex2_e) with inr p => p | inl _ => {| p_body := []; p_nsaves := 0 |} end.
+Example ex2_hyps : compile (fun n => N.eqb n 1) (wrap ex2_e) = inr ex2_p /\ nodeleg (p_body ex2_p) /\ oke true 0 (wrap ex2_e).
+Proof. split; [reflexivity|]. split; [reflexivity|]. unfold oke. cbn. repeat split; auto; try lia; try reflexivity; try (unfold usize_max; lia). Qed.
+Example ex2_runs :
+  exists sv, fst (vm_run {| c_text := [99; 97; 98]; c_pos := 0; c_skipped := false |} ex2_p 100 None 1000) = RMatch sv /\
+             firstn 2 sv = [V 0; V 3].
+Proof. eexists; split; vm_compute; reflexivity. Qed.
+
+(* non-vacuity 2: (?>(a)?(?(1))b) — a condition on a group inside an atomic group, compiled to VM
    instructions only; on "ab" it matches with group 1 set, on "b" the condition fails *)
 Definition ex_e : expr :=
   AtomicGroup (Concat [Repeat (Group (Literal [97] false)) 0 1 true; BackrefExistsCondition 1; Literal [98] false]).
 Definition ex_bs : N -> bool := fun n => N.eqb n 1.
 Definition ex_p : prog :=
   match compile ex_bs (wrap ex_e) with inr p => p | inl _ => {| p_body := []; p_nsaves := 0 |} end.
-Example ex_hyps : compile ex_bs (wrap ex_e) = inr ex_p /\ nodeleg (p_body ex_p) /\ oke 0 (wrap ex_e).
+Example ex_hyps : compile ex_bs (wrap ex_e) = inr ex_p /\ nodeleg (p_body ex_p) /\ oke true 0 (wrap ex_e).
 Proof. split; [reflexivity|]. split; [reflexivity|]. unfold oke. cbn. repeat split; auto; try lia; try reflexivity. Qed.
 Example ex_runs :
   (exists sv, fst (vm_run {| c_text := [97; 98]; c_pos := 0; c_skipped := false |} ex_p 100 None 1000) = RMatch sv /\
@@ -73,5 +97,5 @@ Theorem C15_nested_conditional_refuted :
 Proof. eexists. eexists. split; [reflexivity|]. split; [vm_compute; reflexivity|]. split; vm_compute; reflexivity. Qed.
 
 Print Assumptions C15_reference_conditional.
-Print Assumptions C15_exists_condition.
+Print Assumptions C15_conditional_follows_reference.
 Print Assumptions C15_nested_conditional_refuted.
